@@ -1542,6 +1542,9 @@ def metacall():
             if value in rev:
                 value = idx[value]
             else:
+                if not queue.maxlen:
+                    # Caching disabled (ITEM_CACHE_SIZE=0).
+                    return
                 if len(rev) >= queue.maxlen:
                     old = queue.popleft()
                     for k in rev.pop(old):
